@@ -368,16 +368,83 @@ Section Formats.
   Qed.
 
   (** ** "the same content in the other format" *)
+  (** the keys non-gpg in-toto uses: plain securesystemslib keys *)
+  Definition plain_key (key : json) : Prop := exists kid, sslib_key key kid.
+
   Definition fmt_equiv (md md' : metadata) : Prop :=
     match md, md' with
     | Metablock _ _, Envelope _ _ _ _ =>
-        get_payload md' = get_payload md /\ forall key, vsig md key = vsig md' key
+        get_payload md' = get_payload md /\ forall key, plain_key key -> vsig md key = vsig md' key
     | _, _ => False
     end.
 
-  Lemma fmt_equiv_md_rel : forall md md', fmt_equiv md md' -> md_rel sig_ok now_s md md'.
+  Lemma fmt_equiv_md_rel : forall md md', fmt_equiv md md' -> md_rel sig_ok now_s plain_key md md'.
   Proof.
     intros [sg p|pb pt sg pr] [sg' p'|pb' pt' sg' pr'] H; try contradiction.
     destruct H as [Hp Hs]. split; [symmetry; exact Hp | exact Hs].
+  Qed.
+
+  (** a Metablock and an Envelope of one validated payload, with the same signers and a consistent
+      oracle, outside finding D14a, are the same content in the two formats *)
+  Theorem reformat_related : forall sigs p pb pt sigs' parsed msg,
+    get_payload (Envelope pb pt sigs' parsed) = Ok p ->
+    Forall sig_wf sigs -> signed_bytes_mb p = Ok msg ->
+    (forall key kid, sslib_key key kid ->
+       Forall2 (fun s s' => kid_matches kid s = kid_matches kid s' /\
+                            sslib_valid s key msg = sslib_valid s' key (pae (utf8 pt) pb)) sigs sigs' /\
+       first_match_decides kid key msg sigs) ->
+    fmt_equiv (Metablock sigs p) (Envelope pb pt sigs' parsed).
+  Proof.
+    intros sigs p pb pt sigs' parsed msg Hp Hwf Hmsg H. split; [exact Hp|].
+    intros key [kid Hk]. destruct (H key kid Hk) as [H2 Hfd].
+    eapply sigcheck_equiv; eassumption.
+  Qed.
+
+  (** ** key sets all of whose keys lie in a class [K] of subkey-free keys satisfy the side
+      conditions of the payload-only theorem *)
+  Lemma main_keys_nosub : forall (l : layout),
+    Forall (fun kv => subkey_ids (snd kv) = []) (ly_keys l) -> main_keys_for_subkeys l = [].
+  Proof.
+    intros l H. unfold main_keys_for_subkeys.
+    assert (G : forall ks (acc : list (str * json)),
+              Forall (fun kv : str * json => subkey_ids (snd kv) = []) ks ->
+              fold_left (fun acc kv => fold_left (fun acc' sk => dict_set sk (snd kv) acc') (subkey_ids (snd kv)) acc) ks acc = acc).
+    { intros ks acc Hks. revert acc. induction Hks as [|kv ks' Hkv _ IH]; intro acc; [reflexivity|].
+      cbn [fold_left]. rewrite Hkv. cbn [fold_left]. apply IH. }
+    apply G. exact H.
+  Qed.
+
+  Lemma verification_key_in : forall l s kid vk mainid,
+    verification_key l [] s kid = Some (Ok (vk, mainid)) -> exists a, lookup a (ly_keys l) = Some vk.
+  Proof.
+    intros l s kid vk mainid. unfold verification_key. induction (st_pubkeys s) as [|a auth IH]; [discriminate|].
+    cbn [lookup]. destruct (lookup a (ly_keys l)) as [k|] eqn:El; [|exact IH].
+    destruct (jtruthy k); [|exact IH].
+    assert (Hown : match jget S_keyid k with Some kid0 => Some (Ok (k, kid0)) | None => Some (Err EKeyError) end
+                   = Some (Ok (vk, mainid)) -> exists a0, lookup a0 (ly_keys l) = Some vk).
+    { destruct (jget S_keyid k); intro H; inversion H; subst. exists a. exact El. }
+    destruct (eqs kid a); [exact Hown|]. destruct (mem_str kid (subkey_ids k)); [exact Hown | exact IH].
+  Qed.
+
+  Lemma keyset_ok_of_Forall : forall (K : json -> Prop) keys,
+    Forall (fun kv => K (snd kv) /\ subkey_ids (snd kv) = []) keys -> keyset_ok K keys.
+  Proof.
+    intros K keys H l Hl. subst keys. split.
+    - intros s kid vk mainid Hv.
+      rewrite main_keys_nosub in Hv.
+      2:{ eapply Forall_impl; [|exact H]. intros kv [_ Hs]. exact Hs. }
+      destruct (verification_key_in _ _ _ _ _ Hv) as [a Ha]. apply lookup_In in Ha.
+      rewrite Forall_forall in H. exact (proj1 (H _ Ha)).
+    - intros kid ks Hks. destruct (lookup kid (ly_keys l)) as [k|] eqn:El.
+      + apply check_public_keys_idem in Hks. inversion Hks; subst ks. constructor; [|constructor].
+        apply lookup_In in El. rewrite Forall_forall in H. exact (proj1 (H _ El)).
+      + exfalso. unfold check_public_keys in Hks. cbn [mapM fst snd] in Hks.
+        destruct (is_hex kid); discriminate.
+  Qed.
+
+  Lemma keys_in_K_of_Forall : forall (K : json -> Prop) ks,
+    Forall (fun kv => K (snd kv)) ks -> keys_in_K K (JDict ks).
+  Proof.
+    intros K ks H ks' Hk. apply check_public_keys_idem in Hk. inversion Hk; subst. exact H.
   Qed.
 End Formats.
